@@ -12,6 +12,24 @@ NOT_APPLICABLE = {}
 HOOK_COMMITS = []
 
 CHECKS = {
+    "C05": {
+        "run": "^TestC05_",
+        "rule": ("cases = (multi-source row and form, number of sources k, one script per source, one interleaving of those scripts); every tuple of scripts and every interleaving "
+                 "inside the stated scope is enumerated, each notification processed to bubble quiescence before the next is issued; concurrent cases = the same scripts driven by one "
+                 "goroutine per source, repeated. Non-trivial = at least two sources notify and the arrival order is not 'source after source' (the only shape the suite feeds); "
+                 "distinct by (row, k, arrival order) hash."),
+        "quick": {"rapid": 60, "timeout": 300, "shards": 6},
+        "thorough": {"rapid": 1000, "timeout": 3000, "shards": 16},
+        "assumptions": COMMON_ASSUMPTIONS + ["testing/synctest's notion of durable blocking decides quiescence after each notification"],
+        "technique": "bounded-exhaustive enumeration of arrival orders against step models (per-step output, subscription and release state); concurrent runs judged by membership in the set of model outputs over all interleavings",
+        "level_text": ("Exploration. For the merge, combine-latest, concat, race, zip, take/skip-until, buffer/sample/throttle-when and sequence-equal families (creation, With, "
+                       "WithN and All forms), window-when, group-by and merge-map: every tuple of short source scripts (completion, error or silence as ending) and EVERY "
+                       "interleaving is fed one notification at a time; after each step the output so far, which sources are subscribed, which must still be connected and "
+                       "which must have been released are compared with a step model written from the property text and the documentation. Free-running goroutines: the "
+                       "observed output must be the model's output for some interleaving compatible with each source's own order."),
+        "level_note": ("Two listed findings pinned by the suite (TakeUntil/SkipUntil notifier error, SequenceEqual prefix comparison). The concurrent part only sees the schedules the "
+                       "scheduler produces. FlatMap with asynchronous inners is covered through Concat + the cold-inner rows of C04."),
+    },
     "C15": {
         "run": "^TestC15_",
         "rule": ("cases = (operator and configuration {Retry MaxRetries x ResetOnSuccess, Retry(), RepeatWith n, DoWhile/While variant x truth sequence, Catch, OnErrorResumeNextWith, "
